@@ -152,8 +152,9 @@ def run_shard(spec, shard):
                                 "$[?@.a==@.*]", "$[1:2:9007199254740993]", "", " $", "$[?match(@.a)]"]), "doc": doc},
                 {"invalid", "error-class-battery"})
         elif k < 0.25:
-            one({"q": r.choice(["$..a", "$..*", "$[0]..[?@.a]", "$.a..z[0]", "$..[?@.z]", "$.*..a"]),
-                 "deep": r.choice([99, 100, 101, 102, 120])}, {"deep-document"})
+            one({"q": r.choice(["$..a", "$..*", "$[0]..[?@.a]", "$.a..z[0]", "$..[?@.z]", "$.*..a", "$..nomatch",
+                                "$..[?@.nomatch]", "$..[7]"]),
+                 "deep": r.choice([10, 30, 49, 50, 51, 60, 80, 98, 99, 100, 101, 102, 120])}, {"deep-document"})
 
     drive(rng(), spec["n"], spec["seed"], body)
 
